@@ -3,7 +3,7 @@ Renders text only; every choice (tables, stimuli) is the specification's."""
 import json
 import os
 
-from .routing import TYPES, CARGO_SHARD
+from .routing import TYPES, cargo_shard, rename_crate
 
 PAYLOAD = {"raw": [("payload", "Binary")], "t1": [("p1", "u32")], "t2": [("p1", "u32"), ("p2", "String")],
            "t3": [("p1", "u32"), ("p2", "String"), ("p3", "Nested")]}
@@ -100,7 +100,7 @@ def program_src(prog):
     return "".join(o)
 
 
-def generate(progs, out_dir, harness_dir, repo, shards, prefix, write_if_changed, exclude=()):
+def generate(progs, out_dir, harness_dir, repo, shards, prefix, write_if_changed, exclude=(), krate="sylvia"):
     progs = [p for p in progs if p["id"] not in exclude]
     shards = max(1, min(shards, len(progs)))
     groups = [[] for _ in range(shards)]
@@ -113,11 +113,11 @@ def generate(progs, out_dir, harness_dir, repo, shards, prefix, write_if_changed
         name = "%s%d" % (prefix, gi)
         members.append(name)
         d = os.path.join(out_dir, name)
-        write_if_changed(os.path.join(d, "Cargo.toml"), CARGO_SHARD % (name, harness_dir, repo))
+        write_if_changed(os.path.join(d, "Cargo.toml"), cargo_shard(name, harness_dir, repo, krate))
         src = "// generated by harness/gen/replies.py from TLC's tables -- do not edit\n"
         for p in g:
             start = src.count("\n") + 1
-            src += program_src(p)
+            src += rename_crate(program_src(p), krate)
             spans[(name, p["id"])] = (start, src.count("\n"))
         src += "\nfn main() {\n    verif_rrt::reply_main_with(&[%s]);\n}\n" % ", ".join("%s::vt()" % p["id"].lower() for p in g)
         write_if_changed(os.path.join(d, "src", "main.rs"), src)
